@@ -55,22 +55,58 @@ func nearMiss(s string, variant string) string {
 	return s + ".evil.example"
 }
 
+// cfgVariants name OTHER configured strings of the service provider: a value that the SP knows, but that is
+// not the one the checked field must equal (a check that compares against "any of my endpoints" accepts them).
+var cfgVariants = []string{"cfg-acs", "cfg-slo", "cfg-spissuer", "cfg-idpissuer", "cfg-audience", "cfg-idpsso", "cfg-idpslo"}
+
+// wrongValue is nearMiss extended by the cfg-* variants.
+func wrongValue(sp h.SPConfig, right, variant string) string {
+	v, cfg := "", true
+	switch variant {
+	case "cfg-acs":
+		v = sp.ACS
+	case "cfg-slo":
+		v = sp.SLO
+	case "cfg-spissuer":
+		v = sp.SPIssuer
+	case "cfg-idpissuer":
+		v = sp.IdPIssuer
+	case "cfg-audience":
+		v = sp.Audience
+	case "cfg-idpsso":
+		v = sp.IdPSSO
+	case "cfg-idpslo":
+		v = sp.IdPSLO
+	default:
+		cfg = false
+	}
+	if !cfg {
+		return nearMiss(right, variant)
+	}
+	if strings.Contains(v, "]]>") {
+		// text-context strings may hold "]]>", which cannot be carried in a signed attribute (C08's open
+		// finding, not what C03 is about): variant not applicable
+		return right
+	}
+	return v
+}
+
 var respFaults = map[string][]string{
-	"version":     {"absent", "1.1", "2.00", " 2.0", "2", ""},
-	"destination": {"wrong", "slash", "case", "space", "lspace"},
-	"issuer":      {"absent", "wrong", "slash", "case", "space", "empty"},
+	"version":     {"absent", "1.1", "2.00", " 2.0", "2", "", "02.0", "+2.0", "2e0", "2.0 ", "2.0.0", "0x1p1"},
+	"destination": append([]string{"wrong", "slash", "case", "space", "lspace"}, cfgVariants...),
+	"issuer":      append([]string{"absent", "wrong", "slash", "case", "space", "empty"}, cfgVariants...),
 	"status":      {"absent"},
 	"statuscode":  {"absent", "Requester", "success-case", "empty", "valueabsent"},
 	"noassertion": {"-"},
 }
 
 var asrtFaults = map[string][]string{
-	"issuer":    {"absent", "wrong", "slash", "case", "space", "empty"},
+	"issuer":    append([]string{"absent", "wrong", "slash", "case", "space", "empty"}, cfgVariants...),
 	"subject":   {"absent"},
 	"sc":        {"absent"},
 	"method":    {"holder", "absent", "bearer-case", "empty"},
 	"scd":       {"absent"},
-	"recipient": {"absent", "wrong", "slash", "case", "space", "empty"},
+	"recipient": append([]string{"absent", "wrong", "slash", "case", "space", "empty"}, cfgVariants...),
 	"nooa":      {"absent", "empty", "garbage", "dateonly", "nozone", "lspace", "past1ns", "past1s", "past1h"},
 }
 
@@ -104,7 +140,7 @@ func applyFault(m *h.ResponseModel, sp h.SPConfig, f Fault) (ErrSpec, bool) {
 			}
 			return ErrSpec{Type: "ErrInvalidValue", Key: "SAML version", Reason: saml2.ReasonUnsupported}, true
 		case "destination":
-			v := nearMiss(sp.ACS, f.Variant)
+			v := wrongValue(sp, sp.ACS, f.Variant)
 			if v == sp.ACS || v == "" {
 				return ErrSpec{}, false
 			}
@@ -118,7 +154,7 @@ func applyFault(m *h.ResponseModel, sp h.SPConfig, f Fault) (ErrSpec, bool) {
 			if sp.IdPIssuer == "" {
 				return ErrSpec{}, false
 			}
-			v := nearMiss(sp.IdPIssuer, f.Variant)
+			v := wrongValue(sp, sp.IdPIssuer, f.Variant)
 			if v == sp.IdPIssuer {
 				return ErrSpec{}, false
 			}
@@ -161,7 +197,7 @@ func applyFault(m *h.ResponseModel, sp h.SPConfig, f Fault) (ErrSpec, bool) {
 		if sp.IdPIssuer == "" {
 			return ErrSpec{}, false
 		}
-		v := nearMiss(sp.IdPIssuer, f.Variant)
+		v := wrongValue(sp, sp.IdPIssuer, f.Variant)
 		if v == sp.IdPIssuer {
 			return ErrSpec{}, false
 		}
@@ -192,7 +228,7 @@ func applyFault(m *h.ResponseModel, sp h.SPConfig, f Fault) (ErrSpec, bool) {
 		if f.Variant == "absent" {
 			a.Recipient = h.None
 		} else {
-			v := nearMiss(sp.ACS, f.Variant)
+			v := wrongValue(sp, sp.ACS, f.Variant)
 			if v == sp.ACS {
 				return ErrSpec{}, false
 			}
